@@ -44,7 +44,7 @@ def scn(buses, handlers, main, actors=(), forwards=(), order=None, **kw):
 def families(tier):
     deep = tier == 'thorough'
     out = []
-    cfg = dict(bound=3 if deep else 2, cap=60000 if deep else 1500, window=0.25, max_targets=2)
+    cfg = dict(bound=4 if deep else 2, cap=60000 if deep else 1500, window=0.25, max_targets=2)
 
     def add(fam, sid, s, **params):
         nb = len(s['buses'])
